@@ -18,7 +18,8 @@ RULE = (
     "and elements that trigger magic trailing commas) under a generated [tool.black] section (line-length "
     "20..120, skip-magic-trailing-comma, skip-string-normalization, preview); the harness formats the module "
     "with its own black.Mode built from those options (independent TOML handling) to make it clean, or leaves it "
-    "unclean; approved set drawn from the 16 subsets (create+fix weighted up). Oracle, clean before: "
+    "unclean; optionally the file holds other code whose black layout depends on the python versions black infers "
+    "from the file (long with-statements, star-argument calls, return unpacking, match, type parameters); approved set drawn from the 16 subsets (create+fix weighted up). Oracle, clean before: "
     "black(new, same mode) == new; if not, the text u that was handed to the whole-file formatting step is "
     "captured and black(black(u)) == black(u) is checked - when black itself is not idempotent there the case is "
     "counted as formatter instability, not as a violation. Oracle, unclean before and no format-command: the "
@@ -60,6 +61,20 @@ def black_mode(mode):
     )
 
 
+A, B = "a" * 34, "b" * 38
+FILLERS = {
+    "with": f"def filler():\n    with open('{A}') as fffffffffffffffffff, open('{B}') as ggggggggggggggggggggg:\n        pass\n",
+    "with312": f"def filler[T](x: T) -> T:\n    with open('{A}') as fffffffffffffffffff, open('{B}') as ggggggggggggggggggggg:\n        return x\n",
+    "star_args": f"def filler(*args, **kwargs):\n    return print('{A}', '{B}', 'cccccccccccccccccccccccccc', *args, **kwargs)\n",
+    "star_args_fstring": f"def filler(*args, **kwargs):\n    return print(f'{A}', '{B}', 'cccccccccccccccccccccccccc', *args, **kwargs)\n",
+    "match": "def filler(v):\n    match v:\n        case [1, *rest]:\n            return rest\n        case {'k': x}:\n            return x\n",
+    "walrus": f"def filler(v):\n    if (nnnnnnnnnnnnnnnnnnnnnnnnn := len(v) + len('{A}') + len('{B}') + 11111111111111) > 3:\n        return nnnnnnnnnnnnnnnnnnnnnnnnn\n",
+    "return_annot": f"def filler(aaaaaaaaaaaaaaaaaaaaaaaaa: int, bbbbbbbbbbbbbbbbbbbbbbbbbbbbbb: str = '{A}') -> dict[str, list[int]]:\n    return {{}}\n",
+    "del_parens": f"def filler():\n    xxxxxxxxxxxxxxxxxxxxxxxxxxxxxxxx = yyyyyyyyyyyyyyyyyyyyyyyyyyyyyyyyyyyyyyyyyy = zzzzzzzzzzzzzzzzzzzzzzzzzzzzzzzzzz = 1\n    del (xxxxxxxxxxxxxxxxxxxxxxxxxxxxxxxx, yyyyyyyyyyyyyyyyyyyyyyyyyyyyyyyyyyyyyyyyyy, zzzzzzzzzzzzzzzzzzzzzzzzzzzzzzzzzz)\n",
+    "unpack_return": f"def filler(a):\n    return *a, '{A}', '{B}', 'ccccccccccccccccccccccccccccccccccc'\n",
+}
+
+
 @st.composite
 def _case(draw, tier):
     mode = draw(_mode())
@@ -80,7 +95,9 @@ def _case(draw, tier):
                           "events": [long_val], "place": "assert", "style": "assert", "rev": False})
     prog["tests"][-1].append(len(prog["sites"]) - 1)
     F = draw(st.one_of(st.just(["create", "fix"]), st.just(["create", "fix", "trim", "update"]), flag_sets()))
-    return {"prog": prog, "mode": mode, "F": F, "clean": draw(st.sampled_from([True, True, False]))}
+    return {"prog": prog, "mode": mode, "F": F, "clean": draw(st.sampled_from([True, True, False])),
+            # other code in the file whose layout depends on what black infers about the python version
+            "filler": draw(st.sampled_from([None, None] + sorted(FILLERS)))}
 
 
 def signature(case):
@@ -95,6 +112,8 @@ def check(case):
 
     mode = black_mode(case["mode"])
     src, order = gp.render_program(case["prog"])
+    if case.get("filler"):
+        src += "\n\n" + FILLERS[case["filler"]]
     clean = False
     if case["clean"]:
         try:
@@ -189,10 +208,16 @@ def check_from_parent(case):
     d = drivers.make_project({"proj/test_a.py": src, "proj/pyproject.toml": pyproject_of(case["mode"])}, pyproject=None)
     try:
         F = case["F"] or ["create", "fix"]
-        r = drivers.run_pytest(d, ["--inline-snapshot=" + ",".join(F), "proj/test_a.py"])
-        if "INTERNALERROR" in r.stdout or r.returncode not in (0, 1):
-            raise Violation("session-broken", f"rc={r.returncode}\n{r.stdout[-1500:]}\n{r.stderr[-800:]}")
-        new = r.files_after["proj/test_a.py"].decode("utf-8")
+        # started in the parent directory, or in a sibling directory of the project (`pytest ../proj/test_a.py`)
+        where = "sibling" if len(src) % 2 else "parent"
+        if where == "sibling":
+            (d / "other").mkdir()
+            r = drivers.run_pytest(d / "other", ["--inline-snapshot=" + ",".join(F), "../proj/test_a.py"])
+        else:
+            r = drivers.run_pytest(d, ["--inline-snapshot=" + ",".join(F), "proj/test_a.py"])
+        if "INTERNALERROR" in r.stdout or r.returncode not in (0, 1) or "Traceback (most recent call last)" in r.stderr:
+            raise Violation("session-broken", f"pytest started in the {where} directory rc={r.returncode}\n{r.stdout[-1500:]}\n{r.stderr[-1500:]}")
+        new = (d / "proj" / "test_a.py").read_bytes().decode("utf-8")
     finally:
         shutil.rmtree(d, ignore_errors=True)
     changed = new != src
@@ -203,10 +228,10 @@ def check_from_parent(case):
 
             diff = "\n".join(difflib.unified_diff(new.splitlines(), again.splitlines(), lineterm="", n=1))
             raise Violation("clean-file-not-clean-afterwards:cwd-outside-project",
-                            f"pytest started in the parent directory; [tool.black] {case['mode']} F={F}\n{diff[:1500]}\n"
+                            f"pytest started in the {where} directory; [tool.black] {case['mode']} F={F}\n{diff[:1500]}\n"
                             f"--- before\n{src}\n--- after\n{new}")
     default = all(v is None for v in case["mode"].values())
-    return {"nontrivial": changed and not default, "classes": ["changed" if changed else "unchanged"],
+    return {"nontrivial": changed and not default, "classes": ["changed" if changed else "unchanged", where],
             "sample": {"mode": case["mode"], "before": src, "after": new}}
 
 
